@@ -33,6 +33,9 @@ def run(ctx):
     ctx.rule("R02-5", "wait_fg_job: status written only from ws.get_status() under pid == *pids.last(); loop exits "
                       "are {ECHILD, waitpid error, count_waited >= count_child}; counter increments exactly under "
                       "fg-child and not continued; get_status = exit code else 128+signal")
+    ctx.rule("R02-7", "wait_fg_job identifies the stages by pid, not by process group: its waitpid target is -1 (or a pid "
+                      "from `pids`); membership is decided against `pids`, so a stage that changes its group is still "
+                      "awaited")
     ctx.rule("R02-6", "every stage is started once and the shell is not duplicated: run_single_program has one fork() "
                       "call site, outside every loop; the code reachable from the Child arm contains no return and no "
                       "edge back into the shell's code - every maximal path ends in process::exit")
@@ -229,6 +232,19 @@ def wait_fg_rules(ctx, crate, wj):
                 return True
         return False
 
+    # (0) what the loop waits for: any child (-1) or a pid of the job, never the process group
+    warg = wj.call_args(wbb)[0]
+    wc = mir.const_int(wj.expand_vars(strip_sites(warg)))
+    gid_params = [wj.local_expr(l) for l in range(1, wj.arg_count + 1) if wj.locals[l]["ty"] == "i32"]
+    from_gid = any(flow.backward(wj, warg, lambda z, g=strip_sites(g): z == g) is not None for g in gid_params)
+    from_pids = flow.backward(wj, warg, lambda z: z == pids) is not None
+    okw = (wc == -1) or (from_pids and not from_gid)
+    ctx.ob("R02-7", wj.path, "the wait target is -1 (any child) or a pid of the job, not the job's process group", okw,
+           key="R02-7|%s|wait-target" % wj.path, where=wj.loc(wbb), crate=crate.kind,
+           detail=None if okw else ("the loop waits on the process group%s: a stage that leaves the group (setsid, "
+                                    "setpgid, a job-control shell as a stage) is never reaped, so the shell resumes "
+                                    "early with status 0 (ECHILD) or blocks forever" %
+                                    (" (-gid)" if from_gid else "")))
     # (a) status writes
     writes = flow.assignments_to_field(wj, "status")
     n_ok = 0
